@@ -6,7 +6,8 @@ GEN = ["Pool.lean"]   # plain-store facts of Pool.Get/Put regenerated from the s
 SHRINK = False
 RULE = ("native executions (GOMAXPROCS in {1,2,8}) of 2..4 goroutines x 2..6 operations on one AtomicValue[int] (load/store/swap/cas over values 0..3) and on one Pool[*item] "
         "(get/put with the callers' holding discipline, New set or nil), plus high-contention runs (3-4 goroutines x 150-300 swaps/stores/CAS of unique values resp. Get/Put loops, events stamped into per-goroutine "
-        "buffers so that nothing but two atomic adds separates consecutive calls); invocation/response events stamped by one atomic counter; every history must be accepted by the "
+        "buffers so that nothing but two atomic adds separates consecutive calls), the FIRST operations on a fresh AtomicValue issued simultaneously (spin barrier), "
+        "producers Putting fresh items while consumers Get and keep them; invocation/response events stamped by one atomic counter; every history must be accepted by the "
         "Lean atomic-object system (linearizability to the register / bag specification) and satisfy the no-double-hold predicate; non-trivial = at least 4 events")
 ASSUMPTIONS = ["atomic.Value and sync.Pool by contract", "data-race freedom is stated over the model's plain-access sets (C18.pool_race_free); the same scenarios are also run under the Go race detector as an observation (a report is a violation; silence proves nothing)"]
 
@@ -16,7 +17,8 @@ def explore(core, rng, tier, seed, search=False):
     rn = 300 if tier == "quick" else 5000
     ns = 25 if tier == "quick" else 600
     return traceprop.explore(core, ID, [["av", rng.randrange(1 << 30), n], ["pool", rng.randrange(1 << 30), n],
-                                        ["avstress", rng.randrange(1 << 30), ns], ["poolstress", rng.randrange(1 << 30), ns]], min_events=4,
+                                        ["avstress", rng.randrange(1 << 30), ns], ["poolstress", rng.randrange(1 << 30), ns],
+                                        ["avfirst", rng.randrange(1 << 30), 3000 if tier == "quick" else 100000], ["poolpc", rng.randrange(1 << 30), 12 if tier == "quick" else 300]], min_events=4,
                              race_cmds=[["pool", rng.randrange(1 << 30), rn], ["av", rng.randrange(1 << 30), rn]])
 
 
